@@ -1,3 +1,296 @@
+import QmiModel.Model.Forward
 import Drv.Common
-/-! stub driver for C02: replaced when the model is built -/
-def main : IO Unit := Drv.main' (fun (s : Unit) _ => (s, "bad-op")) ()
+/-!
+Line-protocol driver for the forwarding model (property C02).
+
+The harness feeds the message-level trace of real QMI runs (taps on `MessageRouter.send_message /
+deliver_message / register…`, `_SocketManager.send_message / add_incoming_connection / …`,
+`_PeerTcpConnection.send_message / _process_message`, `QMI_Context.make_unique_address`,
+`_RpcThread._handle_method_rpc_request`, `QMI_RpcFuture.handle_message`, the proxy stubs); the model
+must reproduce every routing decision, every rewritten address, the pending tables and the stub names.
+
+Payloads are opaque tokens (one word); they must come out unchanged.
+-/
+open QmiModel.Forward
+
+structure World where
+  nodes : Array Node := #[]
+  ifaces : List (Nat × String × List String) := []
+  proxies : List (Nat × Mode × List String × List (String × Stub)) := []
+  futs : List (Nat × String × FutSt String) := []
+
+def errStr : Err → String
+  | .assertion => "exc:AssertionError"
+  | .delivery w => "exc:QMI_MessageDeliveryException:" ++ w
+  | .runtime w => "exc:QMI_RuntimeException:" ++ w
+  | .unpickle => "exc:unpickle"
+  | .duplicateName => "exc:QMI_DuplicateNameException"
+  | .unknownName => "exc:QMI_UnknownNameException"
+
+def mkBody (kind pl : String) : Option (Body String) :=
+  match kind with
+  | "mreq" => some (.methodRequest pl [] [] none)
+  | "mrep" => some (.methodReply .value (some pl))
+  | "erep" => some (.errorReply pl)
+  | "oreq" => some (.otherRequest pl)
+  | "orep" => some (if pl == "QMI_LockRpcReplyMessage" then .lockReply else .otherReply pl)
+  | "plain" => some (.plain pl)
+  | _ => none
+
+def bodyStr : Body String → String
+  | .methodRequest pl _ _ _ => "mreq " ++ pl
+  | .methodReply _ (some pl) => "mrep " ++ pl
+  | .methodReply _ none => "mrep -"
+  | .errorReply pl => "erep " ++ pl
+  | .otherRequest pl => "oreq " ++ pl
+  | .otherReply pl => "orep " ++ pl
+  | .lockReply => "orep QMI_LockRpcReplyMessage"
+  | .plain pl => "plain " ++ pl
+
+/-- `<kind> <sctx> <sobj> <dctx> <dobj> <rid> <pl>` -/
+def parseMsg : List String → Option (Msg String)
+  | [kind, sc, so, dc, dobj, rid, pl] =>
+    (mkBody kind pl).map (fun b => { src := ⟨sc, so⟩, dst := ⟨dc, dobj⟩, reqId := rid, body := b })
+  | _ => none
+
+def msgStr (m : Msg String) : String :=
+  match (bodyStr m.body).splitOn " " with
+  | [k, pl] => s!"{k} {m.src.ctx} {m.src.obj} {m.dst.ctx} {m.dst.obj} {m.reqId} {pl}"
+  | _ => "bad-body"
+
+def parseTok (s : String) : Option (Option Token) :=
+  if s == "-" then some none
+  else match s.splitOn ":" with
+    | c :: t :: rest => some (some ⟨c, String.intercalate ":" (t :: rest)⟩)
+    | _ => none
+
+def names (s : String) : List String := if s == "-" then [] else s.splitOn ","
+
+def modConn (n : Node) (cid : Nat) (f : Conn → Conn) : Node :=
+  { n with conns := n.conns.map (fun c => if c.cid == cid then f c else c) }
+
+def getConn (n : Node) (cid : Nat) : Option Conn := n.conns.find? (fun c => c.cid == cid)
+
+def X : Excs String := { unknownRpc := fun _ => "QMI_UnknownRpcException", delivery := fun _ => "QMI_MessageDeliveryException" }
+
+def stepLine (w : World) (line : String) : World × String :=
+  let bad := (w, "bad-op")
+  match line.splitOn " " with
+  | ["reset"] => ({}, "ok")
+  | ["ctx", name] =>
+    ({ w with nodes := w.nodes.push { name := name } }, s!"ctx {w.nodes.size}")
+  | ["uniq", i, pfx] =>
+    match i.toNat? with
+    | some i =>
+      match w.nodes[i]? with
+      | some n =>
+        let (n', a) := n.makeUnique pfx
+        ({ w with nodes := w.nodes.set! i n' }, s!"addr {a.ctx} {a.obj}")
+      | none => bad
+    | none => bad
+  | ["reg", i, obj] =>
+    match i.toNat? with
+    | some i =>
+      match w.nodes[i]? with
+      | some n =>
+        match n.register obj with
+        | .ok n' => ({ w with nodes := w.nodes.set! i n' }, "ok")
+        | .error e => (w, errStr e)
+      | none => bad
+    | none => bad
+  | ["unreg", i, obj] =>
+    match i.toNat? with
+    | some i =>
+      match w.nodes[i]? with
+      | some n =>
+        match n.unregister obj with
+        | .ok n' => ({ w with nodes := w.nodes.set! i n' }, "ok")
+        | .error e => (w, errStr e)
+      | none => bad
+    | none => bad
+  | ["connect", i, cid, alias] =>
+    match i.toNat?, cid.toNat? with
+    | some i, some cid =>
+      match w.nodes[i]? with
+      | some n =>
+        let c : Conn := { cid := cid, alias := alias, incoming := false, inMap := false }
+        ({ w with nodes := w.nodes.set! i { n with conns := n.conns ++ [c] } }, "ok")
+      | none => bad
+    | _, _ => bad
+  | ["accept", i, cid] =>
+    match i.toNat?, cid.toNat? with
+    | some i, some cid =>
+      match w.nodes[i]? with
+      | some n =>
+        let (n', c) := n.acceptConn cid
+        ({ w with nodes := w.nodes.set! i n' }, s!"alias {c.alias}")
+      | none => bad
+    | _, _ => bad
+  | ["addout", i, cid] =>
+    match i.toNat?, cid.toNat? with
+    | some i, some cid =>
+      match w.nodes[i]? with
+      | some n =>
+        match getConn n cid with
+        | some c =>
+          -- `assert conn.peer_context_alias not in self._peer_context_map`, `assert conn.peer_context_name is not None`
+          if (n.findPeer c.alias).isSome || c.peerName.isNone then (w, "exc:AssertionError")
+          else ({ w with nodes := w.nodes.set! i (modConn n cid (fun c => { c with inMap := true })) }, "ok")
+        | none => bad
+      | none => bad
+    | _, _ => bad
+  | ["drop", i, cid] =>
+    match i.toNat?, cid.toNat? with
+    | some i, some cid =>
+      match w.nodes[i]? with
+      | some n => ({ w with nodes := w.nodes.set! i (modConn n cid (fun c => { c with inMap := false })) }, "ok")
+      | none => bad
+    | _, _ => bad
+  | ["out", i, cid, "hs"] =>
+    match i.toNat?, cid.toNat? with
+    | some i, some cid =>
+      match w.nodes[i]? with
+      | some n =>
+        match getConn n cid with
+        | some c => (w, s!"wire hs {n.name} {if c.incoming then 1 else 0}")
+        | none => bad
+      | none => bad
+    | _, _ => bad
+  | "out" :: i :: cid :: rest =>
+    match i.toNat?, cid.toNat?, parseMsg rest with
+    | some i, some cid, some m =>
+      match w.nodes[i]? with
+      | some n =>
+        match getConn n cid with
+        | some c =>
+          match c.rewriteOut m with
+          | .error e => (w, errStr e)
+          | .ok m' =>
+            let c' := c.notePending m'
+            ({ w with nodes := w.nodes.set! i (modConn n cid (fun _ => c')) }, s!"wire {msgStr m'} pend={c'.pending.length}")
+        | none => bad
+      | none => bad
+    | _, _, _ => bad
+  | ["in", i, cid, "hs", srcCtx, isSrv] =>
+    match i.toNat?, cid.toNat? with
+    | some i, some cid =>
+      match w.nodes[i]? with
+      | some n =>
+        match getConn n cid with
+        | some c =>
+          match c.handshakeIn srcCtx (isSrv == "1") with
+          | .error e => (w, errStr e)
+          | .ok c' => ({ w with nodes := w.nodes.set! i (modConn n cid (fun _ => c')) }, s!"peer {srcCtx}")
+        | none => bad
+      | none => bad
+    | _, _ => bad
+  | "in" :: i :: cid :: rest =>
+    match i.toNat?, cid.toNat?, parseMsg rest with
+    | some i, some cid, some m =>
+      match w.nodes[i]? with
+      | some n =>
+        match getConn n cid with
+        | some c =>
+          match c.rewriteIn n.name m with
+          | .error e => (w, errStr e)
+          | .ok m' =>
+            let c' := c.popPending m'
+            ({ w with nodes := w.nodes.set! i (modConn n cid (fun _ => c')) }, s!"msg {msgStr m'} pend={c'.pending.length}")
+        | none => bad
+      | none => bad
+    | _, _, _ => bad
+  | "send" :: i :: act :: rest =>
+    match i.toNat?, parseMsg (rest ++ ["-"]) with
+    | some i, some m =>
+      match w.nodes[i]? with
+      | some n =>
+        match ({ n with active := act == "1" } : Node).route m with
+        | .ok .localDeliver => (w, "local")
+        | .ok (.remote a) => (w, s!"queued {a}")
+        | .error e => (w, errStr e)
+      | none => bad
+    | _, _ => bad
+  | "smsend" :: i :: rest =>
+    match i.toNat?, parseMsg (rest ++ ["-"]) with
+    | some i, some m =>
+      match w.nodes[i]? with
+      | some n =>
+        match n.findPeer m.dst.ctx with
+        | some c => (w, s!"conn {c.cid}")
+        | none => (w, "noconn")
+      | none => bad
+    | _, _ => bad
+  | "deliver" :: i :: rest =>
+    match i.toNat?, parseMsg (rest ++ ["-"]) with
+    | some i, some m =>
+      match w.nodes[i]? with
+      | some n =>
+        match n.deliver m with
+        | .ok h => (w, s!"handler {h}")
+        | .error e => (w, errStr e)
+      | none => bad
+    | _, _ => bad
+  | ["iface", i, obj, ns] =>
+    match i.toNat? with
+    | some i => ({ w with ifaces := (i, obj, names ns) :: w.ifaces }, "ok")
+    | none => bad
+  | ["exec", i, obj, lock, reqtok, method, sc, so, dc, dobj, rid] =>
+    match i.toNat?, parseTok lock, parseTok reqtok with
+    | some i, some lock, some reqtok =>
+      match w.ifaces.find? (fun e => e.1 == i && e.2.1 == obj) with
+      | some (_, _, ns) =>
+        let o : Obj String := { lock := lock, methods := fun nm => if ns.contains nm then some (fun _ _ => .value "r") else none }
+        let req : Msg String := { src := ⟨sc, so⟩, dst := ⟨dc, dobj⟩, reqId := rid, body := .methodRequest method [] [] reqtok }
+        match dispatch X o req with
+        | some r =>
+          let k := match r.body with
+            | .methodReply .value _ => "C"
+            | .methodReply .exception _ => "U"
+            | .methodReply .locked _ => "L"
+            | _ => "?"
+          (w, s!"reply {k} {r.src.ctx} {r.src.obj} {r.dst.ctx} {r.dst.obj} {r.reqId}")
+        | none => (w, "noreply")
+      | none => (w, "bad-op")
+    | _, _, _ => bad
+  | ["proxy", pid, binding, mode, ns, params] =>
+    match pid.toNat?, binding, mode with
+    | some pid, "perName", "blk" => ({ w with proxies := (pid, .blocking, names params, mkStubsWith .perName (names ns)) :: w.proxies }, "ok")
+    | some pid, "perName", "nb" => ({ w with proxies := (pid, .nonBlocking, names params, mkStubsWith .perName (names ns)) :: w.proxies }, "ok")
+    | some pid, "loopVariable", "blk" => ({ w with proxies := (pid, .blocking, names params, mkStubsWith .loopVariable (names ns)) :: w.proxies }, "ok")
+    | some pid, "loopVariable", "nb" => ({ w with proxies := (pid, .nonBlocking, names params, mkStubsWith .loopVariable (names ns)) :: w.proxies }, "ok")
+    | _, _, _ => bad
+  | ["stub", pid, attr, kws] =>
+    match pid.toNat? with
+    | some pid =>
+      match w.proxies.find? (fun e => e.1 == pid) with
+      | some (_, mode, params, stubs) =>
+        match stubFor stubs attr with
+        | some s =>
+          match stubKwargs mode params ((names kws).map (fun k => (k, ""))) with
+          | .ok kw => (w, s!"sends {s.sends} {if kw.isEmpty then "-" else String.intercalate "," (kw.map (·.1))}")
+          | .error .typeError => (w, "exc:TypeError")
+          | .error .runtimeError => (w, "exc:RuntimeError")
+        | none => (w, "noattr")
+      | none => bad
+    | none => bad
+  | ["futinit", i, obj] =>
+    match i.toNat? with
+    | some i => ({ w with futs := (i, obj, .noResult) :: w.futs }, "ok")
+    | none => bad
+  | ["fut", i, obj, kind, pl] =>
+    match i.toNat?, mkBody kind pl with
+    | some i, some b =>
+      match w.futs.find? (fun e => e.1 == i && e.2.1 == obj) with
+      | some (_, _, st) =>
+        let m : Msg String := { src := ⟨"", ""⟩, dst := ⟨"", obj⟩, reqId := "", body := b }
+        let st' := futureHandle X st m
+        let out := match st, st' with
+          | .noResult, .set .. => "set"
+          | .noResult, .noResult => "ignored"
+          | .set .., _ => "dup"
+        ({ w with futs := (i, obj, st') :: w.futs.filter (fun e => !(e.1 == i && e.2.1 == obj)) }, out)
+      | none => bad
+    | _, _ => bad
+  | _ => bad
+
+def main : IO Unit := Drv.main' stepLine ({} : World)
